@@ -12,8 +12,11 @@ types (u64 cofactor/cycle length/exponents, i64 primes). `Inv s` (Ymq/Lemmas/Rel
 the store invariant: every published cycle has cofactor 1 and is valid; `partial[p]` decodes to a
 valid relation with cofactor `p`; `doubles[(p,q)]` decodes to a valid relation with cofactor `p·q`,
 `p < q`; `doubles_rev` mirrors `doubles`. `bnum`/`num_integer` operations are Nat/Int arithmetic.
-All theorems hold for every modulus; the store theorems need `n ≤ 2^512` because the packed form
-keeps only 8 words of `x` (the code's own limit).
+The theorems about single relations and the final step hold for every modulus; the store theorems
+need `n ≤ 2^512` because the packed form keeps only 8 words of `x` and `Uint` products of two reduced
+operands must stay below 2^1024 (the code's own limit; `above_512_bits_counterexample` shows it is
+needed). The library refuses inputs above 500 bits and multipliers are below 2^8, so every store the
+sieves build has `n < 2^508`.
 -/
 import Ymq.Lemmas.RelationsStore
 import Ymq.Lemmas.RelationsFinal
@@ -355,8 +358,12 @@ theorem kernel_step_proper (n : Nat) (slots : List Int) (rels : List Relation) (
 
 /-- `final_step` as a whole (model of everything around the kernel solver: occurrence table,
 stable sort, relation filter, kernel loop with the `pseudoprime` early exit, sort + dedup): for ANY
-relations, ANY factor base, ANY kernel vectors (even wrong ones) and ANY primality oracle, every
-element of the returned list is a divisor `d` of `n` with `1 < d < n`. -/
+relations, ANY factor base, ANY kernel vectors (even wrong ones) and ANY primality oracle, IF the
+routine returns (`= .ok`: no assertion fails — guaranteed for the accumulate/combine part by
+`even_combination_square` when the exponents are even, and for `try_factor` by
+`try_factor_proper`; it is NOT claimed that `final_step` returns for arbitrary input: wrong kernel
+vectors or relations outside the factor base trip its assertions), every element of the returned
+list is a divisor `d` of `n` with `1 < d < n`. -/
 theorem final_step_proper (n : Nat) (fb : List Nat) (rels : List Relation)
     (kernel : List (List Nat)) (isPrime : Nat → Bool) (slots : List Int) (cnt : Nat)
     (divs : List Nat) (h : finalStep n fb rels kernel isPrime = .ok (slots, cnt, divs)) :
@@ -392,6 +399,28 @@ passes the `gcd > 1` test and `assert!(q.bits() > 1)` fails (`q = 1`). `final_st
 outputs of `ZmodN::to_int`, which are `< n` (`even_combination_square`). -/
 theorem try_factor_unreduced_panics :
     (match tryFactor 15 15 15 with | .error .panic => true | _ => false) = true := by decide
+
+/-- The bound `n ≤ 2^512` of the store theorems is needed (the packed form keeps 8 words of `x`,
+and `Uint` products wrap at 2^1024). Counter-witness with a 513-bit prime modulus: two valid
+single-large-prime relations (7·3 and 7·5) with `x < n`; the first has `x ≥ 2^512`, its packed form
+no longer is a congruence, and the combination fails the debug assertion `rr.verify` (checked
+profile: panic; the release build publishes a cycle that is not a congruence — replayed in
+corpus/C11). The library refuses inputs above 500 bits and multipliers are below 2^8, so the
+sieves only build stores with `n < 2^508`. -/
+theorem above_512_bits_counterexample :
+    let n : Nat := 16726041804270452572290053156948817748302028439234336854656539114103478183465965372217202988186037484404750841932642732943597871402046223214758872027837567
+    let r1 : Relation := {
+      x := 15692708161746241229803632486591312320814626935488773036482119882159453705390675389337822573304650612417145097212410872130448361809799395515650842531628730,
+      cofactor := 7, cyclelen := 1, factors := [(3, 1)] }
+    let r2 : Relation := {
+      x := 6548632574640154080079276714760476942672874677017165959893492956524203208114864690947907327015696768442505403271716254125661913297297375997971857171444119,
+      cofactor := 7, cyclelen := 1, factors := [(5, 1)] }
+    2 ^ 512 < n ∧ r1.x < n ∧ r2.x < n ∧ Valid n r1 ∧ Valid n r2 ∧
+    (pack r1 >>= unpack).toOption.map (fun r => decide (Valid n r)) = some false ∧
+    (match runHistory [(r1, none), (r2, none)] (Store.new n 4 100) with
+      | .error .debug => true
+      | _ => false) = true := by
+  decide +kernel
 
 /-- The contract's bound `p + 1 < 2^32` on large primes is needed: the callers only guarantee
 `p ≤ maxlarge ≤ 2^32 - 1`, and for the one remaining value `p = 2^32 - 1` (= 3·5·17·257·65537, not a
